@@ -597,6 +597,10 @@ def ceval(expr: ast.AST, env: dict):
         return ceval(expr.body, env) if ceval(expr.test, env) else ceval(expr.orelse, env)
     if isinstance(expr, ast.Call) and (dotted(expr.func) or "").split(".")[-1] in ("array_equal", "array_equiv", "allclose") and len(expr.args) >= 2:
         return ceval(expr.args[0], env) == ceval(expr.args[1], env)
+    if isinstance(expr, ast.Call) and isinstance(expr.func, ast.Name) and expr.func.id in ("len", "list", "range", "set", "sorted", "tuple", "min", "max", "sum", "all", "any", "abs") and not expr.keywords:
+        import builtins
+
+        return getattr(builtins, expr.func.id)(*[ceval(a, env) for a in expr.args])
     if isinstance(expr, ast.Call) and isinstance(expr.func, ast.Name) and expr.func.id in ("bool", "int", "str") and len(expr.args) == 1:
         return {"bool": bool, "int": int, "str": str}[expr.func.id](ceval(expr.args[0], env))
     raise Unknown(txt)
